@@ -18,7 +18,7 @@ ANCHOR_FILES = ["dissect/hypervisor/util/envelope.py", "dissect/hypervisor/tools
 RULE = (
     "An independent envelope writer (layout confirmed against the repository sample, which it re-creates byte for byte "
     "in its header) produces version-2 AES-256-GCM envelopes for payload lengths 0..3 MiB (..9 MiB thorough, crossing "
-    "the 4 MiB decrypt chunk), paddings 0..4095, attribute sets with every attribute type in any order (integers of "
+    "the 4 MiB decrypt chunk), paddings 0..12000 (the field is a plain 32-bit count), attribute areas that end exactly at / a few bytes before the end of the header block, attribute sets with every attribute type in any order (integers of "
     "all widths at their extremes, float32-exact floats, doubles, UTF-8 strings, byte strings), nonces of 8/12/16 "
     "bytes, associated data absent/short/long; keystores in mode NONE with arbitrary ids and data in five formatting "
     "styles. Positive oracle: decrypt(key, aad) == payload; the CLI (run in-process) writes exactly the payload and "
